@@ -405,6 +405,10 @@ class SelFromPlot:
         """
         sorted_indices = np.argsort(self.sel_freq)
         self.sel_freq = list(np.array(self.sel_freq)[sorted_indices])
+        if self.plot in ("SSI", "pLSCF"):
+            self.pole_ind = list(np.array(self.pole_ind)[sorted_indices])
+        elif self.plot == "FDD":
+            self.freq_ind = list(np.array(self.freq_ind)[sorted_indices])
 
     def show_help(self) -> None:
         """
